@@ -1,0 +1,34 @@
+//go:build verif
+
+// Contracts for the deductive verifier in /verif (comment-only; compiled only
+// with -tags verif).  Syntax: see /verif/DESIGN.md.
+package config
+
+// C11.  docsafe(key) is the allow-list documented in
+// docs/man/git-lfs-config.adoc ("including and limited to"), defined in
+// /verif/spec/c11.smt2.  The sinks are the two places where a configuration
+// line takes effect: the store into the value map and the store into the
+// extension table.  From a source that is restricted to safe keys
+// (.lfsconfig in the working tree, index or HEAD) only documented keys may
+// reach the value map, and no extension property may change.  Values are
+// appended, so a later source (Git's own configuration is always the last
+// one, see git.(*Configuration).Sources) ends up last in the slice, and
+// (*GitFetcher).Get returns the last element.
+//@ func readGitConfig
+//@   props C11
+//@   at store-map vals assert gc.OnlySafeKeys && !ext_priority_key(key) ==> docsafe(key)
+//@   at store-map vals assert gc.OnlySafeKeys && ext_priority_key(key) ==> docsafe(key)
+//@   at store-map vals assert mapkey__ == key && len(mapval__) == len(vals[key]) + 1 && mapval__[len(vals[key])] == val
+//@   at store-map extensions assert gc.OnlySafeKeys ==> ext.Clean == extensions[name].Clean
+//@   at store-map extensions assert gc.OnlySafeKeys ==> ext.Smudge == extensions[name].Smudge
+//@   at store-map extensions assert gc.OnlySafeKeys ==> ext.Priority == extensions[name].Priority
+
+//@ func (*GitFetcher).Get
+//@   props C11
+//@   ensures has(g.vals, str_casefold(key)) && len(g.vals[str_casefold(key)]) > 0 ==> ok && val == g.vals[str_casefold(key)][len(g.vals[str_casefold(key)]) - 1]
+
+//@ func (*GitFetcher).caseFoldKey
+//@   pure
+//@   assumed
+//@   props C11
+//@   ensures result == str_casefold(key)
